@@ -21,7 +21,13 @@ def _nontrivial(rec):
 # corpus witnesses w0..w3 and the judge reports fails:C09-set-bytes-length / fails:C09-empty-datums (status "fixed":
 # nothing is suppressed, the check exits 1).
 CFG = {
-    "level_text": "Coq proofs (closed under the global context; Blake2b-256 a universally quantified function without any law, every "
+    "level_text": "[phase 3: also proved — the judge's slicing of the whole serialised transaction (outer array, body map with any other fields, witness "
+                  "set) returns the model's hashes and fields (C09_tx_view_sound, C09_judge_accepts_model); auxiliary-data hash for every history of "
+                  "set_auxiliary_data / set_metadata / add_metadatum / add_json_metadatum / remove, incl. values decoded from the three wire forms "
+                  "(C09_aux_history, C09_aux_wire_reencode); the full witness set incl. native scripts, key and bootstrap witnesses; the languages in use "
+                  "computed from the sub-builders' entries (joint with the C10 model: C09_entries_langs_model, C09_same_bytes_entries); additions-only "
+                  "histories need no premise (C09_same_bytes_additive)] "
+                  "Coq proofs (closed under the global context; Blake2b-256 a universally quantified function without any law, every "
                   "statement an equality of preimages) that (1) hash_script_data hashes the ledger's preimage — redeemer bytes as emitted or A0, "
                   "datum bytes as emitted or nothing, canonical language views of exactly the languages of the table — over the witness set "
                   "emitted for the same redeemers and datums, for ALL redeemers, datums and cost models; (2) language_views_encoding is the "
@@ -58,7 +64,9 @@ CFG = {
             "reference scripts (V1-V3, repeated scripts, same bytes under two languages), witness / reference / absent datums, duplicated and "
             "extra datums, a collateral witness repeating a spend redeemer, set in every order, calc_script_data_hash with used + unused + missing "
             "languages, items added after calc, set/remove hash, re-calc, calc on an empty builder, missing collateral, auxiliary data in the three "
-            "wire forms via set_auxiliary_data / set_metadata / add_metadatum / remove; balanced with add_change_if_needed and built with build_tx. "
+            "wire forms via set_auxiliary_data (constructed and decoded from bytes) / set_metadata / add_metadatum / add_json_metadatum* / remove, the same content "
+            "re-set with the flipped format flag; native scripts per sub-builder; stale Plutus witnesses (input re-added as a key input); key / bootstrap witnesses in "
+            "helper witness sets; balanced with add_change_if_needed and built with build_tx. "
             "non-trivial = distinct case line whose model result carries a hash",
     "trusted_base": [
         "spec transcription ScriptData/ScriptDataSpec.v + LangViews.v: ledger hashScriptIntegrity (redeemers ‖ datums ‖ language views over the bytes "
@@ -71,9 +79,10 @@ CFG = {
     ],
     "assumptions": [
         "languages in use = declared languages of the script sources of the builder's Plutus witnesses (a reference script's language is what the caller declares)",
-        "TransactionBuilder scenarios contain no native scripts, vkeys or bootstrap witnesses (witness-set fields 0-2 absent from get_witness_set)",
+        "TransactionBuilder scenarios contain native scripts in every sub-builder that takes them; key / bootstrap witnesses appear only in the helper cases (get_witness_set never sets them)",
         "fees stay below 2^32 in builder scenarios (the 9-byte fee field is property C06)",
-        "fixed classes (no longer excluded from anything while the switches are false): C09-set-bytes-length, C09-empty-datums",
+        "fixed classes (no longer excluded from anything while the switches are false): C09-set-bytes-length, C09-empty-datums, C09-stale-input-language",
+        "reachable C10 builder states have duplicate-free withdrawal keys (PointersProofs.wd_refine); native scripts are not in the C10 model (given per sub-builder)",
     ],
     "explanation": "Theorems quantify over all byte strings, identity classes, cost-model tables and operation histories; the correspondence run ties the "
                    "Gallina model to the compiled helper and builder on seeded cases built from real library values; the Coq-extracted judge evaluates "
